@@ -712,12 +712,12 @@ example (st : ExecSt) :
     let orc : Nat → Call → Res := fun i _ => if i == 2 then .ok 256 else .ok 3
     let mh : Match := { ty := .exec, lno := 1, part := 0, argv := [[120]] }
     (runOracle orc (execOne Proofs.StdinExample.env0 mh st) 0 []).2 =
-      [(.openPath (ofString "/dev/null"), .ok 3), (.fork, .ok 3), (.waitpid, .ok 256), (.close 3, .ok 3)] ∧
+      [(.openPath (ofString "/dev/null"), .ok 3), (.fork [[120]] 3, .ok 3), (.waitpid, .ok 256), (.close 3, .ok 3)] ∧
     Proofs.BadChild (runOracle orc (execOne Proofs.StdinExample.env0 mh st) 0 []).2 ∧
     (runOracle orc (execOne Proofs.StdinExample.env0 mh st) 0 []).1.2 = true := by
   intro orc mh
   have htr : (runOracle orc (execOne Proofs.StdinExample.env0 mh st) 0 []).2 =
-      [(.openPath (ofString "/dev/null"), .ok 3), (.fork, .ok 3), (.waitpid, .ok 256), (.close 3, .ok 3)] := rfl
+      [(.openPath (ofString "/dev/null"), .ok 3), (.fork [[120]] 3, .ok 3), (.waitpid, .ok 256), (.close 3, .ok 3)] := rfl
   have hb : Proofs.BadChild (runOracle orc (execOne Proofs.StdinExample.env0 mh st) 0 []).2 := by
     rw [htr]
     refine .inr ⟨.ok 256, by simp, ?_⟩
@@ -823,7 +823,7 @@ example :
     let e : Expr := .mtch 1 (.or 1 (.command 1 [[116]]) (.all 1)) (.move 1 [47, 100])
     let env := Proofs.msgEnv Proofs.examplePEnv Proofs.exampleOracles [47, 109, 47, 110, 101, 119, 47, 49]
     let m := parseMessage [83, 117, 98, 106, 101, 99, 116, 58, 32, 120, 10, 10, 98, 10]
-    let orcl : Nat → Call → Res := fun _ c => match c with | .fork => .err "EAGAIN" | _ => .ok 0
+    let orcl : Nat → Call → Res := fun _ c => match c with | .fork .. => .err "EAGAIN" | _ => .ok 0
     (evalTop env e m MFlags.empty).answers orcl 0 = [.status (-1)] ∧
     (evalR env e m MFlags.empty [.status (-1)]).2 = [.command [[116]]] ∧
     Proofs.FailAns env.timeFormat (.command [[116]]) (.status (-1)) ∧
@@ -841,8 +841,8 @@ a signal - is match / no match, not an error (`C13_command_status`). -/
 theorem C04_command_failure_causes (av : List Bytes) (orcl : Nat → Call → Res) (j : Nat) :
     (Proofs.Own.runO orcl (sysCall (.command av)) j).1 =
       .status (match orcl j (.openPath (ofString "/dev/null")) with
-        | .ok _ => Model.execValue true (orcl (j + 1) .fork) (orcl (j + 2) .waitpid)
-        | _ => Model.execValue false (orcl (j + 1) .fork) (orcl (j + 2) .waitpid)) ∧
+        | .ok h => Model.execValue true (orcl (j + 1) (.fork (av.map cstr) h)) (orcl (j + 2) .waitpid)
+        | r => Model.execValue false (orcl (j + 1) (.fork (av.map cstr) (Proofs.Own.okHandle r))) (orcl (j + 2) .waitpid)) ∧
     ∀ (d : Bool) (f w : Res), Model.execValue d f w < 0 ↔
       Proofs.childOutcome d f w = .cannotRun ∨ Proofs.childOutcome d f w = .waited (.exited 127) :=
   ⟨Proofs.sysCall_command_value av orcl j, Proofs.execValue_neg_iff⟩
@@ -854,7 +854,7 @@ ERROR and leaves the match list as it was. -/
 theorem C04_command_failure_is_error_run (env : Env) (root : Msg) (lno : Nat) (argv av : List Bytes) (part : Nat) (m : Msg)
     (st : St) (hav : argv.mapM (interpolate st.ml none) = some av) (orcl : Nat → Call → Res) (j : Nat)
     (h : let o := Proofs.childOutcome (match orcl j (.openPath (ofString "/dev/null")) with | .ok _ => true | _ => false)
-            (orcl (j + 1) .fork) (orcl (j + 2) .waitpid)
+            (orcl (j + 1) (.fork (av.map cstr) (Proofs.Own.okHandle (orcl j (.openPath (ofString "/dev/null")))))) (orcl (j + 2) .waitpid)
          o = .cannotRun ∨ o = .waited (.exited 127)) :
     (Proofs.Own.runO orcl (evalT env root (.command lno argv) part m st).toProg j).1 = (.error, st) := by
   rw [Proofs.evalT_command_run]
